@@ -212,6 +212,30 @@ func vgtGenStamp(t *rapid.T, label string, anchors []time.Time) time.Time {
 		k := rapid.IntRange(-2, 2).Draw(t, label+".dk")
 		return vgtAdd(vgtTrunc(a, 'H'), u, k)
 	}
+	if rapid.IntRange(0, 2).Draw(t, label+".edge") == 0 {
+		// a day next to a coarser-unit boundary, leap year 2020 preferred
+		y := rapid.SampledFrom([]int{2019, 2020, 2020, 2021}).Draw(t, label+".ey")
+		var a time.Time
+		switch rapid.SampledFrom([]string{"jan1", "dec31", "dec31", "first", "last", "feb28", "feb29", "mar1"}).Draw(t, label+".eanchor") {
+		case "jan1":
+			a = vgtDate(y, 1, 1, 0)
+		case "dec31":
+			a = vgtDate(y, 12, 31, 0)
+		case "first":
+			a = vgtDate(y, time.Month(rapid.IntRange(1, 12).Draw(t, label+".em")), 1, 0)
+		case "last":
+			a = vgtDate(y, time.Month(rapid.IntRange(1, 12).Draw(t, label+".em"))+1, 0, 0)
+		case "feb28":
+			a = vgtDate(y, 2, 28, 0)
+		case "feb29":
+			a = vgtDate(y, 2, 29, 0) // 1 Mar in a common year
+		default:
+			a = vgtDate(y, 3, 1, 0)
+		}
+		h := rapid.SampledFrom([]int{0, 0, 1, 12, 13, 22, 23, 23}).Draw(t, label+".eh")
+		min := rapid.SampledFrom([]int{0, 0, 30, 59}).Draw(t, label+".emin")
+		return time.Date(a.Year(), a.Month(), a.Day(), h, min, 0, 0, time.UTC)
+	}
 	y := rapid.IntRange(2019, 2021).Draw(t, label+".y")
 	m := rapid.SampledFrom([]int{1, 2, 2, 3, 6, 11, 12, 12}).Draw(t, label+".m")
 	dim := vgtDate(y, time.Month(m)+1, 0, 0).Day()
